@@ -37,7 +37,8 @@ Step(ev) ==
     [] ev.a = "addbad"   -> NAddBad
     [] ev.a = "send"     -> IF Known(ev.arg.i) /\ ~eof[ev.arg.i] THEN NSend(ev.arg.i, ev.arg.data) ELSE NQuiet("send", ev.arg)
     [] ev.a = "shut"     -> IF Known(ev.arg.i) /\ ~eof[ev.arg.i] THEN NShut(ev.arg.i, ev.arg.how) ELSE NQuiet("shut", ev.arg)
-    [] ev.a = "conn"     -> IF Known(ev.arg.i) THEN NConn(ev.arg.i) ELSE NQuiet("conn", ev.arg)
+    \* whether the kernel took the connection is the environment's answer (recorded)
+    [] ev.a = "conn"     -> IF Known(ev.arg.i) /\ ev.obs.ret = "ok" THEN NConn(ev.arg.i) ELSE NQuiet("conn", ev.arg)
     [] ev.a = "wait"     -> \E take \in TakeChoices(ev) : NWait(ev.arg.what, ev.arg.rvs, take)
     [] ev.a = "next"     -> NPop(ev.obs.cur)
     [] ev.a = "dispatch" -> IF cur # 0 THEN NHand(HR(ev.arg)) ELSE NQuiet("dispatch", ev.arg)
